@@ -252,8 +252,14 @@ func vC42LifeDest(r *vRand, prefix string, maxG int) conf.ForwardDest {
 
 func vC42LifeNextFwd(r *vRand, cur conf.Forward, prefix string, maxG int) (conf.Forward, string) {
 	l := append(conf.Forward{}, cur...)
+	if len(l) == 0 {
+		if r.Bool() {
+			return l, "same-list"
+		}
+		return append(l, vC42LifeDest(r, prefix, maxG)), "dest-appended"
+	}
 	switch c := r.Intn(12); {
-	case c < 6 || len(l) == 0 && c < 8:
+	case c < 6:
 		return l, "same-list"
 	case c < 7:
 		l[r.Intn(len(l))] = vC42LifeDest(r, prefix, maxG)
@@ -488,6 +494,8 @@ func vC42LifeObsDesc(obs []vC42LifeObs) []string {
 
 func vC42MsTerm(in *vC42Intern, ms []string) string { return in.MS(ms) }
 
+var errVC42LifeDiscard = fmt.Errorf("a started handler did not announce its destination within 5 s")
+
 var vC42LifeDesc = &description.Session{Medias: []*description.Media{{
 	Type:    description.MediaTypeVideo,
 	Formats: []format.Format{test.FormatH264},
@@ -591,7 +599,7 @@ func vC42LifeRunSpec(sp vC42LifeSpec) (string, map[string]any, string, bool, err
 		descSteps = append(descSteps, d)
 	}
 	if !settled {
-		return "", nil, "", false, fmt.Errorf("a started handler did not announce its destination within 5 s")
+		return "", nil, "", false, errVC42LifeDiscard // not judged: whether a started handler gets to run at all is not C42's subject
 	}
 
 	class := "life:forward:no-group-change"
